@@ -663,6 +663,28 @@ func (it *Interp) formatString(args []Value) (Bytes, []Value) {
 }
 
 func modelSprintf(it *Interp, fr *frame, args []Value, fn *ssa.Function) Value {
+	// exact model of fmt.Sprintf("%x", []byte) on symbolic bytes of concrete length (BCD dates)
+	if f, ok := it.concreteString(args[0].(Bytes)); ok && f == "%x" {
+		if gs, ok := args[1].(GSlice); ok && len(gs.D) == 1 {
+			if ifc, ok := gs.D[0].(Iface); ok {
+				if b, ok := ifc.V.(Bytes); ok && !b.Str && b.Len.IsConst() && b.Len.k <= 64 {
+					c := it.ctx
+					n := int(b.Len.k)
+					o := it.newVecObj(2 * n)
+					hexd := func(nib *Term) *Term {
+						return c.Ite(c.Bin(OpUlt, nib, c.BV(10, 8)), c.Bin(OpAdd, nib, c.BV('0', 8)), c.Bin(OpAdd, nib, c.BV('a'-10, 8)))
+					}
+					for i := 0; i < n; i++ {
+						x := it.bytesAt(b, c.Int(int64(i)))
+						o.cells[2*i] = hexd(c.Bin(OpLShr, x, c.BV(4, 8)))
+						o.cells[2*i+1] = hexd(c.Bin(OpBvAnd, x, c.BV(0x0f, 8)))
+					}
+					ln := c.Int(int64(2 * n))
+					return Bytes{Obj: o, Off: c.Int(0), Len: ln, Cap: ln, Str: true}
+				}
+			}
+		}
+	}
 	s, _ := it.formatString(args)
 	return s
 }
